@@ -49,9 +49,44 @@ int main()
     byte digest[Sha256::digestSize];
     memset(digest, 0xEE, sizeof(digest));
     bool okHex = true;
-    for(int i = 1; i < l.ntok; ++i) okHex = okHex && (strcmp(l.tok[0], "setcount") == 0 || validHex(l.tok[i]));
+    for(int i = 1; i < l.ntok; ++i) okHex = okHex && (strcmp(l.tok[0], "setcount") == 0 || strcmp(l.tok[0], "variant") == 0 || validHex(l.tok[i]));
     if(!okHex) { printf("bad-op"); hxEndLine(); }
     else if(hxIs(l, "reset", 0)) { fresh(); printf("ok"); hxEndLine(); }
+    // which build configuration of Sha256.cpp this harness was compiled in (tools/areas/sha.py builds both)
+    else if(l.ntok == 2 && strcmp(l.tok[0], "variant") == 0)
+    {
+#ifdef _SHA256_UNROLL2
+      const char* mine = "u2";
+#else
+      const char* mine = "rolled";
+#endif
+      printf(strcmp(l.tok[1], mine) == 0 ? "ok" : "bad-op"); hxEndLine();
+    }
+    // white box: one Transform call on an arbitrary chaining value (a scratch hasher in exactly sized, poisoned
+    // heap storage; the main hasher is not touched)
+    else if(hxIs(l, "xform", 2))
+    {
+      k = hxBytes(l.tok[1], klen);
+      d = hxBytes(l.tok[2], len);
+      if(klen != 32 || len != 64) { printf("bad-op"); hxEndLine(); }
+      else
+      {
+        void* mem = malloc(sizeof(Sha256));
+        memset(mem, 0xAA, sizeof(Sha256));
+        Sha256* t = new(mem) Sha256;
+        for(int i = 0; i < 8; ++i)
+          t->state[i] = ((uint32)k[4 * i] << 24) | ((uint32)k[4 * i + 1] << 16) | ((uint32)k[4 * i + 2] << 8) | (uint32)k[4 * i + 3];
+        t->update(d, 64);
+        for(int i = 0; i < 8; ++i)
+        {
+          unsigned char w[4] = {(unsigned char)(t->state[i] >> 24), (unsigned char)(t->state[i] >> 16), (unsigned char)(t->state[i] >> 8), (unsigned char)t->state[i]};
+          hxPutHex(w, 4);
+        }
+        hxEndLine();
+        t->~Sha256();
+        free(mem);
+      }
+    }
     else if(hxIs(l, "rst", 0)) { sha->reset(); printf("ok"); hxEndLine(); }
     else if(hxIs(l, "update", 1))
     {
